@@ -22,7 +22,7 @@ ASSUMPTIONS = [
     'a member whose channel is still opening (state Idle) counts as not open',
 ]
 BUDGET = {
-    'quick': {'examples': 1500},
+    'quick': {'examples': 2000},
     'thorough': {'examples': 3000, 'shards': 16},
 }
 
